@@ -111,7 +111,13 @@ func genCondHist(r *rand.Rand, id string, tier string) string {
 				ops = append(ops, "init")
 			}
 		case 13:
-			ops = append(ops, fmt.Sprintf("cond %s %s %s", genKwArg(r), genOpArg(r), genExArg(r)))
+			if r.Intn(2) == 0 {
+				// keep a copy of the handle (what Push stores, what `held := c` keeps), then re-initialise the variable: the
+				// documented assemble / store / Init / assemble-the-next loop. The copy holds what it had accepted.
+				ops = append(ops, "hold", []string{"init", fmt.Sprintf("cond %s %s %s", genKwArg(r), genOpArg(r), genExArg(r))}[r.Intn(2)])
+			} else {
+				ops = append(ops, fmt.Sprintf("cond %s %s %s", genKwArg(r), genOpArg(r), genExArg(r)))
+			}
 		}
 	}
 	return start + " | " + strings.Join(ops, " ; ")
@@ -134,18 +140,23 @@ func obsCond(c stackage.Condition) string {
 
 func runCondHist(payload string) string {
 	parts := strings.SplitN(payload, " | ", 2)
-	var c stackage.Condition
+	var c, held stackage.Condition
+	holding, detached := false, false
 	apply := func(op string) string {
 		t := strings.Fields(op)
 		return guard(func() string {
 			switch t[0] {
+			case "hold":
+				held, holding, detached = c, true, false // a copy of the handle: the same instance until c is re-initialised
 			case "init":
 				c.Init()
+				detached = holding
 			case "cond":
 				kw, rest := parseV(t[1:])
 				o := rest[0]
 				ex, _ := parseV(rest[1:])
 				c = stackage.Cond(Build(kw), opOf(o), Build(ex))
+				detached = holding
 			case "kw":
 				x, _ := parseV(t[1:])
 				c.SetKeyword(Build(x))
@@ -175,10 +186,16 @@ func runCondHist(payload string) string {
 		})
 	}
 	var outs []string
-	outs = append(outs, apply(parts[0])+" "+obsCond(c))
+	obs := func() string {
+		if holding && detached {
+			return obsCond(c) + " H[ " + obsCond(held) + " ]"
+		}
+		return obsCond(c)
+	}
+	outs = append(outs, apply(parts[0])+" "+obs())
 	if len(parts) > 1 && strings.TrimSpace(parts[1]) != "" {
 		for _, op := range strings.Split(parts[1], " ; ") {
-			outs = append(outs, apply(op)+" "+obsCond(c))
+			outs = append(outs, apply(op)+" "+obs())
 		}
 	}
 	return strings.Join(outs, " ; ")
